@@ -256,8 +256,9 @@ void _ZN7QString15fromUtf8_helperEPKci(char *ret, char *p, uint32_t n) { if (!p)
   for (uint32_t i = 0; i < 8; i++) if (i < n) ASSERT(((uint8_t*)p)[i] < 0x80, "fromUtf8: non-ASCII byte (UTF-8 codec is Qt's, not modelled)");
 #endif
   *(QAD**)ret = d; }
-void _ZN7QString17fromLatin1_helperEPKci(char *ret, char *p, uint32_t n) { if (!p) { *(QAD**)ret = SHARED_NULL; return; } if ((int32_t)n < 0) n = vpl_strlen8((uint8_t*)p);
-  uint32_t h = hint8((uint8_t*)p, n); QAD *d = qs_new(n, h); vpl_widen(d, 0, (uint8_t*)p, n, h); qs_seal(d, !VP_IS_QB(p) && VP_LITSTART(p)); *(QAD**)ret = d; }
+/* Qt 5: static Data *fromLatin1_helper(const char *, int) returns the d-pointer */
+char* _ZN7QString17fromLatin1_helperEPKci(char *p, uint32_t n) { if (!p) return (char*)SHARED_NULL; if ((int32_t)n < 0) n = vpl_strlen8((uint8_t*)p);
+  uint32_t h = hint8((uint8_t*)p, n); QAD *d = qs_new(n, h); vpl_widen(d, 0, (uint8_t*)p, n, h); qs_seal(d, !VP_IS_QB(p) && VP_LITSTART(p)); return (char*)d; }
 static void to8(char *ret, const uint16_t *p, uint64_t n, uint16_t lim) { struct numv ni = num16(p, n); if (ni.isnum) { *(QAD**)ret = qb_number(ni.mag, ni.neg); return; }
   { QAD *t = b64_16(p, n); if (t) { QAD *d = qb_new(1, 1); BD(d)[0] = '@'; ((struct qb*)d)->b64 = t; *(QAD**)ret = d; return; } }
   uint32_t h = hint16(p, n); QAD *d = qb_new((uint32_t)n, h); uint8_t ok = vpl_narrow(d, 0, p, (uint32_t)n, h, lim);
